@@ -46,7 +46,7 @@ def build(ctx: RunCtx) -> Prop:
     return Prop(
         pid=PID, title="authorised <=> no same-key invocation in the given statuses; arguments indexed on every registering path (single and batch); "
                        "blocked invocations end CONCURRENCY_CONTROLLED(_FINAL) per option without the poll raising; key selection per mode; AND-match of key pairs",
-        level="proof", technique="contract-based deductive verification of the real glue and Mem index functions (AST->z3 VCs over abstract component contracts)",
+        level="other", technique="contract-based deductive verification of the real glue and Mem index functions (AST->z3 VCs over abstract component contracts)",
         registry=reg, verify=verify, lemmas=[check_then_act] + c06_leaf.lemmas(T, reg, ctx), bounded=c06_leaf.bounded(),
         replayers={"*get_additional_invocations_to_run/raises:InvocationStatusError:undeclared-exception*": c06_leaf.replay_poll_raises,
                    "*ownership/DistributedInvocation.run/*": c06_leaf.replay_check_then_act},
